@@ -12,6 +12,17 @@ theorem every_delivery_wrapped (max mw : Nat) (script : List Outcome) (batches :
     allWrapped mw (runHistory max mw script batches).1.trace = true :=
   Shape.all_wrapped max mw script batches
 
+/-- "the receiver last": on every path (spawn, restart, poison, max-restarts) the receiver at the
+    inner end of the chain is the current incarnation - a chain composed around an earlier
+    incarnation's receiver is never used (seed C13-r10m1: chain cached across a restart). -/
+theorem chain_ends_at_current_receiver (max mw : Nat) (script : List Outcome) (batches : List (List Msg)) :
+    chainTargetOK 0 (runHistory max mw script batches).1.trace = true :=
+  Shape.chain_target_ok max mw script batches
+
+/-- the acceptor is not trivially true: a delivery to incarnation 1 after incarnation 2 was produced. -/
+example : chainTargetOK 0 [.producer 1, .recv 1 .initialized 1 true, .producer 2, .recv 1 (.user 7 none) 1 true] = false := by
+  decide
+
 /-- order: applying the chain `[m₁ … mₙ]` runs m₁ outermost, …, mₙ innermost, the receiver last,
     each exactly once, for every chain length. -/
 theorem chain_order (chain : List Nat) :
